@@ -671,7 +671,7 @@ fn read_code<C: CodeVisitor>(
 		|r| r.read_u16_as_usize(),
 		|r| Ok(Exception {
 			start: labels.get_or_create(r.read_u16()?)?,
-			end: labels.get_or_create(r.read_u16()?)?,
+			end: labels.get_or_create_check_exclusive(r.read_u16()?)?,
 			handler: labels.get_or_create(r.read_u16()?)?,
 			catch: pool.get_optional(r.read_u16()?, PoolRead::get_class)?,
 		})
